@@ -66,7 +66,7 @@ int main(int argc, char** argv) {
         case 4: runBig<SpatialVec>(c, r, thorough); break;
         case 5: runBig<Real>(c, r, thorough); break;
         case 6: mx::runSmallCase(c, r, i / 8 + (long)(c.args.seed % 22)); break;
-        default: mx::runScalarCase(c, r, i / 8 + (long)(c.args.seed % 12)); break;
+        default: mx::runScalarCase(c, r, i / 8 + (long)(c.args.seed % 16)); break;
         }
     });
 }
